@@ -294,3 +294,19 @@ let () =
                 "(" ^ show_bool (Sem.valid_b n s) ^ " " ^ show_bool (NestSem2.groups2_b so si s) ^ ")")
       (match seqs with L l -> l | _ -> failwith "seqs")
     | _ -> "!args")
+let () =
+  (* (nestsem2own OUTER_SEM INNER_SEM (K ...)) / (nestgroupsown OUTER_SEM INNER_SEM (K ...) (SEQ ...)): the same with the
+     constraints of the Nest itself (in normal form over the Nest's factor numbering) *)
+  register "nestsem2own" (function [o; i; ks] ->
+    let so = simple_sem_of_sexp o in let si = simple_sem_of_sexp i in
+    let ks = list_of_sexp sem_constraint_of_sexp ks in
+    show_list show_bool (nest_guards so si) ^ " " ^ show_sem_full (NestSem4.nest_sem2_own so si ks)
+    | _ -> "!args");
+  register "nestgroupsown" (function [o; i; ks; seqs] ->
+    let so = simple_sem_of_sexp o in let si = simple_sem_of_sexp i in
+    let ks = list_of_sexp sem_constraint_of_sexp ks in
+    let n = NestSem4.nest_sem2_own so si ks in
+    show_list (fun q -> let s = front_seq_of_sexp q in
+                "(" ^ show_bool (Sem.valid_b n s) ^ " " ^ show_bool (NestSem4.groups2_own_b so si ks s) ^ ")")
+      (match seqs with L l -> l | _ -> failwith "seqs")
+    | _ -> "!args")
